@@ -197,6 +197,24 @@ def T():
     return p
 
 
+def Tq():
+    """T whose terminating / interrupting transitions post an event the other region would handle: the event is pending
+    at the moment the blocking state becomes active and must be swallowed like one submitted afterwards"""
+    m = Machine('Tq', [['N1', 'N2', 'Term'], ['M1', 'Intr', 'M2']],
+                [St('Term', kind='term', flags=['F0']), St('Intr', kind='intr', end_events=['e3'], flags=['F1'])],
+                [Row('N1', 'e0', 'N2', act=1, guard=1),
+                 Row('N2', 'e0', 'N1', act=2),
+                 Row('N1', 'e1', 'Term', act=('send', 3, [('e2', 'p')]), guard=2),     # entering Term posts e2 (M1 would take it)
+                 Row('M1', 'e2', 'Intr', act=('send', 4, [('e0', 'p')])),              # entering Intr posts e0 (N1 / N2 would take it)
+                 Row('Intr', 'e3', 'M2', act=5, guard=3),
+                 Row('M2', 'e2', 'M1', act=6),
+                 Row('N1', 'e3', None, act=7),
+                 Row('M1', 'e1', 'Intr', act=8, guard=4)])
+    p = Program(m, ['e0', 'e1', 'e2', 'e3'])
+    p.flags = ['F0', 'F1']
+    return p
+
+
 def FL():
     """user flags on simple states, on a submachine and on its substates"""
     sub = Machine('SubF', [['S1', 'S2'], ['T1', 'T2']],
@@ -372,7 +390,7 @@ def _pol(base, pol):
     return p
 
 
-CATALOG = {f.__name__: f for f in (Q, Q1, Q2, D, Dr, Da, K, Kd, FL3, G1, F1, R2, R3, H2, H3, X, HIn, HIa, HIs, A, Ai, T, FL)}
+CATALOG = {f.__name__: f for f in (Q, Q1, Q2, D, Dr, Da, K, Kd, FL3, G1, F1, R2, R3, H2, H3, X, HIn, HIa, HIs, A, Ai, T, Tq, FL)}
 
 POLICIES = ['after_entry', 'after_transition_action', 'after_exit', 'before_transition']
 for _b in (F1, R2, H2, FL):
